@@ -52,6 +52,7 @@ type RunCtx struct {
 	Tier   string // quick | thorough
 	Config string // harness specific configuration name
 	Idx    int
+	Seed   uint64 // VERIF_SEED (for systematic walks rotated by the seed)
 	Race   bool
 	Replay bool
 	Want   string // when shrinking/replaying: property whose oracles matter ("" = all)
